@@ -279,6 +279,11 @@ func (c *Trait) TTL(ctx context.Context) time.Duration {
 
 	if c.Config.ExpirationJitter > 0 {
 		ttl += time.Duration(float64(ttl) * c.Config.ExpirationJitter * (rand.Float64() - 0.5)) //nolint:gosec
+
+		// Zero means "no expiration" for the caller, a ttl that was jittered down to zero is an expired one.
+		if ttl == 0 {
+			ttl = -1
+		}
 	}
 
 	if c.Config.TimeToLive == UnlimitedTTL && ttl != 0 && c.expirationsSet != nil {
